@@ -322,6 +322,13 @@ def step (st : St) (line : String) : St × String :=
     match ks.mapM Driver.parseU64 with
     | some l => if l.length = 837 then ({ st with skeys := l.toArray, search := {} }, both "ok" "?") else (st, modelOnly "bad-op")
     | none => (st, modelOnly "bad-op")
+  | ["s.keysgood"] =>
+    -- the keys installed by the preceding `s.new` are the ones the engine really drew: non-zero and pairwise distinct?
+    let ks := st.skeys.toList
+    let sorted := ks.mergeSort (fun a b => decide (a ≤ b))
+    let distinct : Bool := (sorted.zip (sorted.drop 1)).all (fun ab => ab.1 != ab.2)
+    let good : Bool := ks.all (fun k => k != 0) && distinct
+    (st, both (if good then "good" else "BAD") "good")
   | ["s.go", b, d, lim] =>
     match parseBoard b, d.toNat?, parseLimit lim with
     | some b, some d, some lim =>
